@@ -11,6 +11,12 @@ Defect switches (call sites):
 * `jsonNullPanics`  — mutation_query.rs:286-297: `serde_json::from_str(value.as_string().unwrap())` on a
   `Json` field; `as_string()` is `None` for `ParamValue::Null`, which `validate_params` admits for a
   nullable field (and the parser admits the literal `null`): the reader thread panics.
+* `dateRangePanics` — date_utils.rs:16-30: `date()` / `date_next_day()` unwrap `DateTime::from_timestamp_millis`
+  and add a day without a check; `Node::get_daily_nodes_for_room` (node.rs:415-431) and the two deletion-log
+  readers apply them to a date taken from a peer's request, on a reader thread (found by the serve engine).
+* `unboundedFirstFrame` — network/endpoint.rs:353-355: the acceptor of a QUIC connection (TLS without client
+  authentication) reads the length of the first frame of the event stream and allocates `vec![0; len]` without the
+  `max_buffer_size` check that the four other frame readers have.
 * `emptyKeyPanics`  — security.rs:78-83: `import_verifying_key` reads `veriying_key[0]` before it checks
   the length: the empty byte string panics.
 -/
@@ -49,15 +55,17 @@ deriving Repr, DecidableEq
 structure Defects where
   jsonNullPanics : Bool
   emptyKeyPanics : Bool
+  dateRangePanics : Bool
+  unboundedFirstFrame : Bool
 deriving Repr, DecidableEq
 
 /-- What /repo does. Both deviations were confirmed on the real code by this check (corpus/C14) and fixed in
     /repo (e10cc1c `jsonNullPanics`, 8e31124 `emptyKeyPanics`); the switches stay so that the witnesses
     `C14_breaks_*` and the regression replays describe what a revert brings back. -/
-def Defects.asImplemented : Defects := { jsonNullPanics := false, emptyKeyPanics := false }
-def Defects.none : Defects := { jsonNullPanics := false, emptyKeyPanics := false }
+def Defects.asImplemented : Defects := { jsonNullPanics := false, emptyKeyPanics := false, dateRangePanics := true, unboundedFirstFrame := true }
+def Defects.none : Defects := { jsonNullPanics := false, emptyKeyPanics := false, dateRangePanics := false, unboundedFirstFrame := false }
 /-- the code before the two fixes -/
-def Defects.beforeFixes : Defects := { jsonNullPanics := true, emptyKeyPanics := true }
+def Defects.beforeFixes : Defects := { jsonNullPanics := true, emptyKeyPanics := true, dateRangePanics := true, unboundedFirstFrame := true }
 
 /-- `Variables::validate_params` for the `VariableType` of the field (`Field::get_variable_type`:
     `String` and `Json` fields are both `VariableType::String`) -/
@@ -152,6 +160,25 @@ signature_verification_service.rs:39-82) -/
 
 /-- does a pool of `threads` plain OS threads still answer after `k` requests that each panic their worker? -/
 def poolAlive (panics : Bool) (threads k : Nat) : Bool := !(panics && threads ≤ k)
+
+/-! ### dates taken from a peer (date_utils.rs:16-30) -/
+
+/-- `DateTime::<Utc>::MIN_UTC` / `MAX_UTC` in milliseconds: the range of `DateTime::from_timestamp_millis` -/
+def chronoMinMillis : Int := -8334601228800000
+def chronoMaxMillis : Int := 8210266876799999
+def dayMillis : Int := 86400000
+
+/-- `date(t)` and `date_next_day(t)` are both defined: `t` is representable and so is `t + 1 day` -/
+def dateInRange (t : Int) : Bool := chronoMinMillis ≤ t && t + dayMillis ≤ chronoMaxMillis
+
+/-- outcome of a reader closure that computes the day bounds of a peer-supplied date -/
+def dayBoundsPanics (d : Defects) (t : Int) : Bool := d.dateRangePanics && !dateInRange t
+
+/-! ### the first frame of an accepted connection (endpoint.rs:353-357) -/
+
+/-- does the acceptor keep the connection (allocate `len` bytes and wait for them) after a client announced a
+    first frame of `len` bytes? -/
+def firstFrameAccepted (d : Defects) (len maxBuffer : Nat) : Bool := d.unboundedFirstFrame || len ≤ maxBuffer
 
 /-! ### identifiers spliced bare into SQL (query.rs:107-135, 255-300: `FROM _node <alias>`) -/
 
